@@ -76,7 +76,21 @@ fn fill<R>(pm: &mut PMTiles<R>, l: &Logical) {
 }
 
 pub fn subjects() -> Vec<(String, Logical)> {
+    subjects_t(false)
+}
+
+pub fn subjects_t(thorough: bool) -> Vec<(String, Logical)> {
     let mut v = Vec::new();
+    if thorough {
+        // 5.2 million entries with ids 1.1e12 apart and no compression: more than 1251 leaf directories of the default
+        // size, whose 13-byte pointers do not fit the root either - the only way to make the archive writer itself
+        // double its leaf size and rewind (through the utility that is C06's subject with small initial leaf sizes)
+        let mut l = Logical::new(Compression::None);
+        for k in 0..5_200_000u64 {
+            l.tiles.insert(k * 1_100_000_000_000, vec![b'x']);
+        }
+        v.push(("leaf-size-doubling/none".to_string(), l));
+    }
     for c in COMPS {
         v.push((format!("empty/{}", cname(c)), Logical::new(c)));
         v.push((format!("three-tiles/{}", cname(c)), small_logical(c)));
@@ -129,8 +143,8 @@ pub fn check_one(l: &Logical, api: Api, p: u64, prefill: &str, sink: &str, at_ze
 
 pub fn run(tier: &str) -> i32 {
     let rep = Report::new("C18", tier, "exploration");
-    rep.rule("start positions P in {0,1,10,126,127,128,4096,16384,70000} x stream {empty (zero-extended to P), pre-filled with a position-dependent pattern of P bytes, pre-filled with P+100000 bytes} x archives {0 tiles, 3 tiles (4 compressions), leaf spill (none/gzip/zstd)} x {sync,async} writer, each also into streams that take at most 3 (small archives) or 1000 bytes per write call (asynchronous calls pending once first); oracle: bytes [0,P) untouched, bytes [P,P+L) identical to the archive written at P=0, final position P+L, image[P..] opens to the logical archive; non-trivial = cases with P>0");
-    let subs = subjects();
+    rep.rule("start positions P in {0,1,10,126,127,128,4096,16384,70000} x stream {empty (zero-extended to P), pre-filled with a position-dependent pattern of P bytes, pre-filled with P+100000 bytes} x archives {0 tiles, 3 tiles (4 compressions), leaf spill (none/gzip/zstd); thorough: 5.2 million sparse entries, which make the archive writer double its leaf size} x {sync,async} writer, each also into streams that take at most 3 (small archives) or 1000 bytes per write call (asynchronous calls pending once first); oracle: bytes [0,P) untouched, bytes [P,P+L) identical to the archive written at P=0, final position P+L, image[P..] opens to the logical archive; non-trivial = cases with P>0");
+    let subs = subjects_t(rep.thorough());
     let mut positions: Vec<u64> = POSITIONS.to_vec();
     if rep.thorough() {
         positions.extend(0..=300);
@@ -140,6 +154,13 @@ pub fn run(tier: &str) -> i32 {
     }
     let mut jobs = Vec::new();
     for (si, _) in subs.iter().enumerate() {
+        if subs[si].0.starts_with("leaf-size-doubling") {
+            // a 70 MB archive: two positions, one sink
+            jobs.push((si, Api::Sync, 0, "empty", "whole"));
+            jobs.push((si, Api::Sync, 4096, "pattern-P", "whole"));
+            jobs.push((si, Api::Async, 1_000_000, "empty", "whole"));
+            continue;
+        }
         for api in APIS {
             for p in positions.iter().copied() {
                 for pf in PREFILLS {
@@ -183,7 +204,7 @@ pub fn run(tier: &str) -> i32 {
 pub fn replay(case: &Value) -> Vec<String> {
     let name = case["subject"].as_str().unwrap_or("");
     let api = if case["writer"].as_str() == Some("async") { Api::Async } else { Api::Sync };
-    let Some((_, l)) = subjects().into_iter().find(|s| s.0 == name) else { return vec![format!("unknown subject {name}")] };
+    let Some((_, l)) = subjects_t(name.starts_with("leaf-size-doubling")).into_iter().find(|s| s.0 == name) else { return vec![format!("unknown subject {name}")] };
     let pf = PREFILLS.into_iter().find(|p| Some(*p) == case["prefill"].as_str()).unwrap_or("empty");
     match write_lib(&l, api) {
         Ok(a) => check_one(&l, api, case["P"].as_u64().unwrap_or(0), pf, SINKS.into_iter().find(|p| Some(*p) == case["sink"].as_str()).unwrap_or("whole"), &a).into_iter().map(|(k, d)| format!("{k}: {d}")).collect(),
